@@ -484,6 +484,24 @@ def main(argv=None):
     a = ap.parse_args(argv)
     seed = int(os.environ.get("VERIF_SEED", "0") or 0)
     sys.path.insert(0, ROOT)
+    try:
+        import faulthandler, signal, threading
+        faulthandler.register(signal.SIGUSR1, all_threads=True)      # kill -USR1 <pid>: where is a slow run?
+        # watchdog: an in-process z3 call that ignores its timeout must not hang the check for ever. After the wall limit the
+        # stacks are dumped and the run ends as a checker error (exit 3) - never as a pass, never as a violation.
+        limit = float(os.environ.get("PYVC_WALL_LIMIT", "1500" if a.tier == "quick" else "21600"))
+
+        def _bail():
+            print("CHECKER-ERROR: wall limit of %ds exceeded; thread stacks follow" % limit, file=sys.stderr, flush=True)
+            faulthandler.dump_traceback(all_threads=True)
+            if os.environ.get("PYVC_WALL_MARKER"):
+                open(os.environ["PYVC_WALL_MARKER"], "w").write("wall limit\n")
+            os._exit(3)
+        t = threading.Timer(limit, _bail)
+        t.daemon = True
+        t.start()
+    except Exception:
+        pass
     if a.replay:
         mod = importlib.import_module("contracts." + a.prop.lower())
         rec = json.load(open(a.replay))
